@@ -132,6 +132,9 @@ package resource
 //@ func ParsePhase
 //@   props C18
 //@   pure
+//@   ensures [running] ph == "running" ==> result0 == PhaseRunning && result1 == nil
+//@   ensures [tearing-down] ph == "tearingDown" ==> result0 == PhaseTearingDown && result1 == nil
+//@   ensures [unknown-rejected] ph != "running" && ph != "tearingDown" ==> result1 != nil
 
 // Selector evaluation is used through these frame contracts by the store; its functional
 // specification is C14's.
@@ -155,3 +158,10 @@ package resource
 //@ iface Pointer.ID
 //@   pure
 //@   ensures result == idOf(self)
+
+// Text forms of phases (C18): parse is the inverse of String on the valid phases.
+//@ func (Phase).String
+//@   props C18
+//@   requires [valid-phase] ph == PhaseRunning || ph == PhaseTearingDown
+//@   ensures [running] ph == PhaseRunning ==> result == "running"
+//@   ensures [tearing-down] ph == PhaseTearingDown ==> result == "tearingDown"
